@@ -14,7 +14,7 @@ VARIABLES expPre, expOut
 
 ToSet(s) == {s[i] : i \in DOMAIN s}
 AllowIds == IF "ALLOW" \in DOMAIN IOEnv THEN IOEnv.ALLOW ELSE ""
-KnownIds == {"KF-C05-notlonger", "KF-C09-rollback-number", "KF-C16-txheight", "KF-C06-blockhash", "KF-C03-stale-before-start", "KF-C04-spanning-record"}
+KnownIds == {"KF-C05-notlonger", "KF-C09-rollback-number", "KF-C16-txheight", "KF-C06-blockhash", "KF-C03-stale-before-start", "KF-C04-spanning-record", "KF-C14-envelope"}
 Allow == {id \in KnownIds : \E i \in 1..(Len(AllowIds) - Len(id) + 1) : SubSeq(AllowIds, i, i + Len(id) - 1) = id}
 Prop == IF "PROP" \in DOMAIN IOEnv THEN IOEnv.PROP ELSE "C03"
 
@@ -132,6 +132,11 @@ Step(r) ==
                                 /\ IsPrefixSeq(cpFinal, cpFinal')       \* C07: final check points are append-only
       [] r.ev = "LastState"  -> RecvLastState(r.a.p, [b |-> r.a.b, ok |-> r.a.ok], Oracle(r)) /\ PipeUnchanged
       [] r.ev = "Proof"      -> /\ RecvProof(r.a.p, MsgOf(r.a), Oracle(r))
+                                \* an honest answer fails the total difficulty check only through the known gap
+                                /\ (r.a.kind = "honest" /\ peer[r.a.p].st # "None" /\ HasReq(peer[r.a.p]) /\ MsgOf(r.a).last = peer[r.a.p].req.last
+                                    /\ MsgOf(r.a).td = "world" /\ TdApplies(peer[r.a.p], MsgOf(r.a)) /\ ~TdOf(peer[r.a.p], MsgOf(r.a)))
+                                      => /\ "KF-C14-envelope" \in cfg.allow /\ TdKnownGap(peer[r.a.p], MsgOf(r.a))
+                                         /\ PrintT(<<"KNOWN-FINDING", "KF-C14-envelope", r.a.p, r.a.last>>)
                                 \* a proof that moves the peer's proved header to another branch forgets the peer's latest
                                 \* filter hashes (they belong to the abandoned branch)
                                 /\ (/\ HasProof(peer[r.a.p]) /\ HasProof(peer'[r.a.p])
